@@ -1,7 +1,6 @@
 package jschema
 
 import (
-	stdBytes "bytes"
 	"fmt"
 
 	"github.com/jsightapi/jsight-schema-go-library/bytes"
@@ -57,9 +56,8 @@ func (b *exampleBuilder) buildExampleForObjectNode(node *internalSchema.ObjectNo
 	defer exampleBufferPool.Put(buf)
 
 	buf.WriteRune('{')
-	children := node.Children()
-	length := len(children)
-	for i, childNode := range children {
+	first := true
+	for i, childNode := range node.Children() {
 		ex, err := b.Build(childNode)
 		if err != nil {
 			return nil, err
@@ -74,13 +72,15 @@ func (b *exampleBuilder) buildExampleForObjectNode(node *internalSchema.ObjectNo
 			return nil, err
 		}
 
-		buf.WriteRune('"')
-		buf.Write(k)
-		buf.WriteString(`":`)
-		buf.Write(ex)
-		if i+1 != length {
+		// The separator goes before every emitted member but the first one: a
+		// later member may be omitted (recursion cut-off).
+		if !first {
 			buf.WriteRune(',')
 		}
+		first = false
+		buf.Write(k)
+		buf.WriteRune(':')
+		buf.Write(ex)
 	}
 	buf.WriteRune('}')
 	return copyBytes(buf.Bytes()), nil
@@ -92,9 +92,11 @@ func copyBytes(b []byte) []byte {
 	return append([]byte(nil), b...)
 }
 
+// buildObjectKey returns the key as a JSON string token.
 func (b *exampleBuilder) buildObjectKey(k internalSchema.ObjectNodeKey) ([]byte, error) {
 	if !k.IsShortcut {
-		return []byte(k.Key), nil
+		// The source token is already quoted and escaped; k.Key is its decoded form.
+		return k.Lex.Value(), nil
 	}
 
 	typ, ok := b.types[k.Key]
@@ -106,7 +108,7 @@ func (b *exampleBuilder) buildObjectKey(k internalSchema.ObjectNodeKey) ([]byte,
 	if err != nil {
 		return nil, err
 	}
-	return stdBytes.Trim(ex, `"`), nil
+	return ex, nil
 }
 
 func (b *exampleBuilder) buildExampleForArrayNode(node *internalSchema.ArrayNode) ([]byte, error) {
@@ -118,9 +120,8 @@ func (b *exampleBuilder) buildExampleForArrayNode(node *internalSchema.ArrayNode
 	defer exampleBufferPool.Put(buf)
 
 	buf.WriteRune('[')
-	children := node.Children()
-	length := len(children)
-	for i, childNode := range children {
+	first := true
+	for _, childNode := range node.Children() {
 		ex, err := b.Build(childNode)
 		if err != nil {
 			return nil, err
@@ -130,10 +131,11 @@ func (b *exampleBuilder) buildExampleForArrayNode(node *internalSchema.ArrayNode
 			continue
 		}
 
-		buf.Write(ex)
-		if i+1 != length {
+		if !first {
 			buf.WriteRune(',')
 		}
+		first = false
+		buf.Write(ex)
 	}
 	buf.WriteRune(']')
 	return copyBytes(buf.Bytes()), nil
